@@ -74,6 +74,9 @@ func fixedCases() []corr.Case {
 		mk("fixed-sized", "news 1048576", "cap", "len", "write 0102", "cap", "news 4194303", "cap", "news 4194304", "cap", "len", "writebyte 01", "cap", "bytes"),
 		mk("fixed-sized", "news 4194305", "cap", "len", "write x0:100", "cap", "readbyte", "unreadbyte", "len"),
 		mk("fixed-sized", "news 16777216", "cap", "len", "writebyte 07", "cap", "news 67108864", "cap", "len", "writerune 8364", "cap", "bytes"),
+		// a buffer drained by WriteTo / Truncate(0) / Reset is reused: ReWrite addresses the bytes written since
+		mk("fixed-rewrite-reuse", "news 32", "write 0000616263", "writeto all", "off", "write 0000646566", "rewrite 0 0003", "bytes", "off",
+			"truncate 0", "write 00006768", "rewrite 0 0002", "bytes", "reset", "write 000069", "rewrite 0 0001", "bytes", "writeto short 100", "write 00006a", "rewrite 0 0001", "bytes"),
 		// payload aliasing the buffer (memmove semantics of copy), overlapping forwards and backwards
 		mk("fixed-rewrite-self", "news 16", "write 0102030405060708", "rewriteself 2 0 6", "bytes", "rewriteself 0 2 8", "bytes", "rewriteself 3 3 6", "bytes",
 			"readbyte", "rewriteself 2 0 5", "bytes", "rewriteself 1 0 7", "bytes", "rewriteself 8 0 4", "rewriteself 9 0 4", "rewriteself -1 0 4", "rewriteself 0 9 3", "bytes"),
@@ -97,7 +100,7 @@ func (g *gen) emit(l string) {
 	g.lines = append(g.lines, l)
 	func() {
 		defer func() { _ = recover() }()
-		g.sh.line(l)
+		g.sh.safeLine(l)
 	}()
 	f := strings.Fields(l + " ?")
 	switch f[0] {
